@@ -3,7 +3,7 @@
 # quick check, every behaviour-preserving refactoring must leave the relevant checks at exit 0.  Applies patches to /repo and undoes them.
 cd "$(dirname "$0")/.."
 REPO=${VX_REPO:-/repo}
-declare -A REF=( [1]="C04 C05 C08" [2]="C06" [3]="C01 C18 C11" [4]="C03 C17" [5]="C03" [6]="C10" [7]="C14" [8]="C13" )
+declare -A REF=( [r1]="C04 C05 C08" [r2]="C06" [r3]="C01 C18 C11" [r4]="C03 C17" [r5]="C03" [r6]="C10" [r7]="C14" [r8]="C13" [b1]="C04 C05 C08" [b2]="C06" [b3]="C01 C18 C11" [b4]="C03 C17 C11" [b5]="C03" [b6]="C10" [b7]="C14 C15" [b8]="C13 C09" )
 bad=0
 for d in seeded/C*; do
   id=$(basename $d); p=$(python3 -c "import json;print(json.load(open('$d/meta.json'))['property'])")
@@ -13,8 +13,8 @@ for d in seeded/C*; do
 done
 for k in "${!REF[@]}"; do
   for c in ${REF[$k]}; do
-    BAK=$(mktemp -d work/vx_ev_XXXX); cp -r evidence $BAK/; git -C $REPO apply $PWD/seeded/refactors/r$k.diff; ./check $c >/dev/null 2>&1; rc=$?; git -C $REPO checkout -- .; rm -rf evidence; cp -r $BAK/evidence evidence; rm -rf $BAK
-    if [ $rc = 0 ]; then echo "ok   refactor r$k $c exit 0"; else echo "ALARM refactor r$k $c exit $rc"; bad=1; fi
+    BAK=$(mktemp -d work/vx_ev_XXXX); cp -r evidence $BAK/; git -C $REPO apply $PWD/seeded/refactors/$k.diff; ./check $c >/dev/null 2>&1; rc=$?; git -C $REPO checkout -- .; rm -rf evidence; cp -r $BAK/evidence evidence; rm -rf $BAK
+    if [ $rc = 0 ]; then echo "ok   refactor $k $c exit 0"; else echo "ALARM refactor $k $c exit $rc"; bad=1; fi
   done
 done
 exit $bad
